@@ -618,7 +618,31 @@ pub fn run(ctx: &Ctx) -> (Report, PropertyMeta) {
     report.sections.push(json!({"part": "random back-pressure patterns (stall after k bytes, partial writes, resume, break) for 1..3 slow subscribers, 20..400 publishes", "cases": n}));
     report.merge(r);
 
+    {
+        // real transports, one thread (see C17 / C03): the limit case of a slow subscriber is one
+        // that never gets past its handshake. It must not keep other subscribers of the same
+        // endpoint from joining and being published to (scenario machinery: C20's).
+        use crate::props::c20::{StallCase, Staller, Then};
+        use crate::realnet::Transport;
+        let mut netctx = ctx.clone();
+        netctx.threads = 1;
+        let mut nc = vec![];
+        for kind in [Kind::Pub, Kind::XPub] {
+            for transport in [Transport::TcpV4, Transport::Ipc] {
+                for offset in [0usize, 11, 64, 70] {
+                    nc.push(StallCase { kind, transport, stallers: vec![Staller { offset, then: Then::Hold }] });
+                }
+                nc.push(StallCase { kind, transport, stallers: vec![Staller { offset: 10, then: Then::Hold }, Staller { offset: 64, then: Then::Hold }, Staller { offset: 2, then: Then::Huge }] });
+            }
+        }
+        let r = run_cases(&netctx, "net", &nc, net_outcome);
+        report.exhaustive_parts.push(format!("real TCP and IPC endpoints of PUB/XPUB: 1..3 subscribers stalled inside their handshake (before the greeting, inside it, before / inside READY, inside an announced huge frame) while other subscribers join and are published to: {} cases", nc.len()));
+        report.merge(r);
+        crate::realnet::cleanup_scratch();
+    }
+
     let total = report.evaluations;
+    health_abs(&mut report, "subscriber-stalled-in-handshake-on-a-real-transport", 16);
     health(&mut report, "stall>=HWM-then-resume", total, 200);
     health_abs(&mut report, "heap-measured-during-stall", 100);
     health_abs(&mut report, "broken-subscriber", 100);
@@ -626,15 +650,27 @@ pub fn run(ctx: &Ctx) -> (Report, PropertyMeta) {
 
     let meta = PropertyMeta {
         level: "fault_enumeration",
-        rule: "real PUB and XPUB sockets with raw subscribers whose write side follows a generated back-pressure pattern (accept k bytes then stall, k-byte partial writes, resume, never drain, BrokenPipe) while 20..400 tagged messages with sizes from {1, 254, 255, 256, 1000, 65536, 131071, 131072, 131073, 200000} are published. Oracles: (1) every publish completes with no window action in between; (2) a subscriber that accepts every write receives every publish, in order; (3) a slow subscriber's wire is a well-formed ZMTP stream whose complete messages are an unmodified, order-preserving subsequence of the MATCHING publishes (in a third of the cases everybody subscribes to 'tt' and half of the publishes have a first frame that is a proper prefix of it, empty or unrelated; a trailing fragment only on a broken connection and then a prefix of a later publish); (4) of the bytes published while a subscriber was stalled at most HWM + one message reach it later, and live heap (counting allocator) grows by at most 2 x (HWM + largest message) + 64 KiB per stalled subscriber while all subscribers are stalled; (5) a broken subscriber does not make publish fail. Non-trivial = a subscriber stalls while >= HWM bytes are published and later resumes; distinct by case".into(),
+        rule: "real PUB and XPUB sockets with raw subscribers whose write side follows a generated back-pressure pattern (accept k bytes then stall, k-byte partial writes, resume, never drain, BrokenPipe) while 20..400 tagged messages with sizes from {1, 254, 255, 256, 1000, 65536, 131071, 131072, 131073, 200000} are published. Oracles: (1) every publish completes with no window action in between; (2) a subscriber that accepts every write receives every publish, in order; (3) a slow subscriber's wire is a well-formed ZMTP stream whose complete messages are an unmodified, order-preserving subsequence of the MATCHING publishes (in a third of the cases everybody subscribes to 'tt' and half of the publishes have a first frame that is a proper prefix of it, empty or unrelated; a trailing fragment only on a broken connection and then a prefix of a later publish); (4) of the bytes published while a subscriber was stalled at most HWM + one message reach it later, and live heap (counting allocator) grows by at most 2 x (HWM + largest message) + 64 KiB per stalled subscriber while all subscribers are stalled; (5) a broken subscriber does not make publish fail; (6) on real TCP and IPC endpoints subscribers stalled inside their handshake do not keep other subscribers from joining and receiving every publish. Non-trivial = a subscriber stalls while >= HWM bytes are published and later resumes; distinct by case".into(),
         assumptions: vec!["the high-water mark is asynchronous-codec's default send HWM (131072 bytes), which the library does not change".into()],
         exhaustive: false,
     };
     (report, meta)
 }
 
+/// A subscriber that stalls inside its handshake on a REAL endpoint (C20's scenario machinery; a
+/// failure is this property's because the staller is the slowest possible subscriber).
+pub fn net_outcome(c: &crate::props::c20::StallCase) -> Outcome {
+    let mut o = crate::props::c20::stall_outcome(c);
+    for f in o.failures.iter_mut() {
+        f.sig = format!("C12/real-transport/{}", f.sig.trim_start_matches("C20/"));
+    }
+    o.classes = vec!["subscriber-stalled-in-handshake-on-a-real-transport".into()];
+    o
+}
+
 pub fn replay(_ctx: &Ctx, kind: &str, case: &Value) -> Vec<Failure> {
     match kind {
+        "net" => parse_case::<crate::props::c20::StallCase>(case).map(|c| net_outcome(&c).failures),
         "slow" => parse_case::<SlowCase>(case).map(|c| slow_outcome(&c).failures),
         "comeback" => parse_case::<ComebackCase>(case).map(|c| comeback_outcome(&c).failures),
         _ => Err(vec![Failure::new("replay/unknown-kind", kind.to_string())]),
